@@ -4,6 +4,7 @@ WebTransport stream API (`QuicSendStream::{finish, stopped, write}`, `QuicRecvSt
 `From<quinn::WriteError>`, `From<quinn::ReadError>`, `varint_q2w` / `varint_w2q`).
 -/
 import WtVerif.Varint
+import WtVerif.Generated.Consts
 
 namespace StreamMap
 
@@ -46,6 +47,15 @@ def finish (s : QStopped) : Except WriteError Unit :=
   match stopped s with
   | .closed => .ok ()
   | e => .error e
+
+/-- one call of `QuicSendStream::finish` as the application sees it: `syncErr` = quinn's
+synchronous `finish()` reported `ClosedStream` (the stream was already finished or reset — e.g. a
+second call after a cancelled first one); `st` = what `stopped()` answers, `none` while nothing
+is acknowledged yet. `none` = the call is still pending. Whether any path returns before
+`stopped().await` is a structural fact regenerated from the source. -/
+def finishCall (syncErr : Bool) (st : Option QStopped) : Option (Except WriteError Unit) :=
+  if !Generated.FINISH_AWAITS_STOPPED && syncErr then some (.ok ())
+  else st.map finish
 
 /-- `impl From<quinn::WriteError> for StreamWriteError` -/
 def ofWriteError : QWriteError → WriteError
